@@ -24,4 +24,10 @@ def setRow (m : List (List Int)) (i : Int) (row : List Int) : Res (List (List In
   if i < 0 then .error oob else
   if i.toNat < m.length then .ok (m.set i.toNat row) else .error oob
 
+/-- `xs[a:b]` of an integer slice as a value.  Go checks `b ≤ cap(xs)`; the translator's slices have `cap = len`
+    (every slice the modelled code slices comes from `make([]T, n)` or from the caller as a whole array) -/
+def sliceL (xs : List Int) (a b : Int) : Res (List Int) :=
+  if 0 ≤ a ∧ a ≤ b ∧ b ≤ (xs.length : Nat) then .ok ((xs.take b.toNat).drop a.toNat)
+  else .error (.panic "slice bounds out of range")
+
 end Gzx.GoM
